@@ -248,15 +248,15 @@ pub fn run(ctx: &mut Ctx) {
     for &level in &levels {
         for (api, api_tm) in [("vm", false), ("tm", true)] {
             let t = format!("conc/{}/{}", level_name(level), api);
-            for idx in 0..ctx.n(if micro { 2 } else { 1200 }, 40000) as u64 { ctx.case(&t, "random", idx, |c| conc_case(c, level, api_tm, 0)); }
+            for idx in 0..ctx.n(if micro { 2 } else { 5000 }, 80000) as u64 { ctx.case(&t, "random", idx, |c| conc_case(c, level, api_tm, 0)); }
         }
         let t = format!("conc/{}/vm", level_name(level));
-        for idx in 0..ctx.n(if micro { 1 } else { 60 }, 600) as u64 { ctx.case(&t, "script_two_writers", idx, |c| conc_case(c, level, false, 1)); }
-        for idx in 0..ctx.n(if micro { 1 } else { 60 }, 600) as u64 { ctx.case(&t, "script_min_version", idx, |c| conc_case(c, level, false, 2)); }
+        for idx in 0..ctx.n(if micro { 1 } else { 200 }, 2000) as u64 { ctx.case(&t, "script_two_writers", idx, |c| conc_case(c, level, false, 1)); }
+        for idx in 0..ctx.n(if micro { 1 } else { 200 }, 2000) as u64 { ctx.case(&t, "script_min_version", idx, |c| conc_case(c, level, false, 2)); }
         let t = format!("stress/{}", level_name(level));
-        for idx in 0..ctx.n(if micro { 1 } else { 6 }, 60) as u64 { ctx.case(&t, "free", idx, |c| stress_case(c, level)); }
+        for idx in 0..ctx.n(if micro { 1 } else { 16 }, 200) as u64 { ctx.case(&t, "free", idx, |c| stress_case(c, level)); }
     }
-    for idx in 0..ctx.n(if micro { 6 } else { 1500 }, 40000) as u64 { ctx.case("lifetime/seq", "managers_alive", idx, |c| lifetime_case(c, false)); }
+    for idx in 0..ctx.n(if micro { 8 } else { 6000 }, 80000) as u64 { ctx.case("lifetime/seq", "managers_alive", idx, |c| lifetime_case(c, false)); }
     // dropping a manager while its tokens are still around: only memory safety is observable -> sanitizer variants decide
-    for idx in 0..ctx.n(if micro { 10 } else { 600 }, 10000) as u64 { ctx.case("lifetime/drop_mgr", "drop_orders", idx, |c| lifetime_case(c, true)); }
+    for idx in 0..ctx.n(if micro { 12 } else { 3000 }, 40000) as u64 { ctx.case("lifetime/drop_mgr", "drop_orders", idx, |c| lifetime_case(c, true)); }
 }
